@@ -56,10 +56,12 @@ PROPS = {
 
 def srv_prop(mod, expect, proj, text, extra_suites=None, tags=None, assumptions=None, audit=None):
     suites = {"srv": {"kind": "srv", "projection": proj}}
-    if tags:
-        suites["srv"]["oracle_tags"] = tags
     if extra_suites:
         suites.update(extra_suites)
+    for sv in suites.values():
+        sv.setdefault("projection", proj)
+        if tags:
+            sv.setdefault("oracle_tags", tags)
     return {
         "theorems": [mod], "expect_theorems": expect,
         "audit_files": ["Narwhal/Model/Server.lean", "Narwhal/Model/Id.lean", "Narwhal/Model/Acl.lean", "Narwhal/Lemmas/Emit.lean",
@@ -69,6 +71,16 @@ def srv_prop(mod, expect, proj, text, extra_suites=None, tags=None, assumptions=
     }
 
 ACL_SUITE = {"acl": {"kind": "srv", "args": {"mode": "acl"}, "cases": {"quick": 200, "thorough": 5000}}}
+# three users / two channels; kicks, disconnects, same-name reconnects, hand-overs, broadcasts (dense in stale-membership histories)
+CHURN_SUITE = {"churn": {"kind": "srv", "args": {"mode": "churn"}, "cases": {"quick": 250, "thorough": 6000}}}
+# deterministic replay of the known finding `cleanup-event-lost-when-forwarding-fails`
+KF_CLEANUP = {"kf": {"kind": "srv", "args": {"mode": "kf_cleanup"}, "cases": {"quick": 1, "thorough": 1}, "steps": 20}}
+# observations that reveal the membership / ownership state every channel property rests on: a model/implementation
+# disagreement there breaks the tie for those properties even when it is outside the property's own projection
+STATE_DEPENDS = {"frames": ["JOIN_ACK", "LEAVE_ACK", "EVENT", "CHANNELS_ACK", "MEMBERS_ACK", "MESSAGE", "IDENTIFY_ACK", "AUTH_ACK",
+                            "ERROR:CHANNEL_NOT_FOUND", "ERROR:USER_NOT_IN_CHANNEL", "ERROR:USER_IN_CHANNEL", "ERROR:FORBIDDEN",
+                            "ERROR:POLICY_VIOLATION", "ERROR:CHANNEL_IS_FULL", "ERROR:USERNAME_IN_USE", "ERROR:USER_NOT_REGISTERED",
+                            "ERROR:SERVER_OVERLOADED", "ERROR:NOT_ALLOWED"]}
 
 PROPS.update({
     "C01": srv_prop("Narwhal.Theorems.C01",
@@ -244,3 +256,36 @@ PROPS["C16"] = {
                   "wrappers' reply-to-result mapping belongs to C08/C09.",
     "assumptions": ["distinct correlation ids among live requests"],
 }
+
+
+PROPS["C05"] = srv_prop("Narwhal.Theorems.C05",
+    ["Narwhal.Server.C05_views_agree", "Narwhal.Server.C05_join_adds_exactly", "Narwhal.Server.C05_leave_removes_exactly",
+     "Narwhal.Server.C05_no_empty_channel", "Narwhal.Server.C05_fresh_after_empty", "Narwhal.Server.C05_last_leave_deletes",
+     "Narwhal.Server.C05_last_close_cleans", "Narwhal.Server.C05_members_are_live", "Narwhal.Server.C05_new_session_not_member",
+     "Narwhal.Server.C05_index_complete", "Narwhal.Server.reachable_WF"],
+    {"frames": ["JOIN_ACK", "LEAVE_ACK", "EVENT", "CHANNELS_ACK", "MEMBERS_ACK", "CHAN_CONFIG", "ERROR:CHANNEL_NOT_FOUND",
+                "ERROR:USER_NOT_IN_CHANNEL", "ERROR:USER_IN_CHANNEL"]},
+    "Proved in Lean by induction over every history (every modulator outcome an arbitrary input of every step): the reverse index and the member "
+    "sets are the same relation (so the CHANNELS and MEMBERS listings agree), a JOIN adds and a LEAVE/removal deletes exactly one pair, no channel is "
+    "empty, a channel is deleted with its last member and re-created with default configuration, empty ACLs and the joiner as owner, the clean-up run "
+    "when a user's last connection ends (for any reason, whatever the modulator answers) leaves the user in no channel, every member of every channel "
+    "has a live authenticated connection, and a new session under a free name is a member of nothing. Tied by the srv and churn correspondence suites and "
+    "an auditor oracle (listings, existence probes, fresh configuration, clean-up announcements) on the real server.",
+    extra_suites=dict(CHURN_SUITE, **KF_CLEANUP), tags=["C05"], audit=["Narwhal/Lemmas/Views.lean"],
+    assumptions=["sequential model: operations of different connections are atomic with respect to each other; the repairs 03c00bb, ae22d9a, 823c396 "
+                 "(index update under the channel lock before any suspension point, rollback, single-critical-section unregister) are what make the "
+                 "handlers' effects atomic at the points where a task can be suspended or cancelled; true multi-worker races (DESIGN D23, D27) are "
+                 "not exhibited by this model",
+                 "a dropped connection = a prefix of its requests followed by close (C10)"])
+PROPS["C05"]["level_note"] = ("Known finding (cleanup-event-lost-when-forwarding-fails): when the modulator refuses the forwarded MEMBER_LEFT during a "
+                              "disconnect clean-up the member is removed but the remaining members are not told; stated in the model (`leaveOne`), "
+                              "replayed on every run. " + LEVEL_NOTE_SRV)
+for _p in ("C01", "C14", "C18", "C04"):
+    PROPS[_p]["suites"]["churn"] = dict(CHURN_SUITE["churn"], projection=PROPS[_p]["suites"]["srv"]["projection"], oracle_tags=[_p])
+PROPS["C18"]["suites"]["kf"] = dict(KF_CLEANUP["kf"], projection=PROPS["C18"]["suites"]["srv"]["projection"], oracle_tags=["C18"])
+PROPS["C18"]["level_note"] = ("Known finding (cleanup-event-lost-when-forwarding-fails, shared with C05): no EVENT reaches the remaining members when the "
+                              "modulator refuses the forwarded MEMBER_LEFT of a disconnect clean-up. " + LEVEL_NOTE_SRV)
+for _p in ("C01", "C02", "C04", "C05", "C07", "C14", "C18"):
+    for _s in PROPS[_p]["suites"].values():
+        if _s.get("kind") == "srv":
+            _s["depends"] = STATE_DEPENDS
